@@ -192,7 +192,7 @@ def cost_part(rep: common.Reporter, tier: str, kinds: Optional[set] = None) -> d
                 design_mis[k] = design_mis.get(k, 0) + 1
     drift = steps = 0
     with mp.Pool(16) as pool:
-        for d, st, out in pool.imap_unordered(_chunk, list(common.chunked(behs, 300))):
+        for d, st, out in common.gmap(pool, rep, _chunk, list(common.chunked(behs, 300))):
             drift += d
             steps += st
             for fp, kind, msg, step, beh in out:
